@@ -112,3 +112,48 @@ def builder_setters(ctx, select, rule, why):
                'setter|%s|%s' % (bname, meth), loc=v.loc(), rule=rule)
     return n
 
+
+# ---------------------------------------------------------------------------------------------
+# validator rejection table (added after the mutation sweep).  For every packet validator the set of conditions under which it
+# rejects (the innermost two guard atoms of each `Err(..)` return, canonical polarity) was read against the specification once and is
+# frozen in analysis/tables/validator_rejections.json.  A flipped comparison, `||` turned into `&&`, a dropped or an added rejection all
+# change that set.  Outbound validators belong to C16 (never transmit a violating operation / never reject a conforming one),
+# inbound ones to C11 (a violation is reported, a conforming server is not accused).
+def validator_rows(view):
+    import re
+    from .. import prims
+    out = set()
+    for b, e in prims.ret_variants(view):
+        if e[0] == 'agg' and e[2] == 'Err':
+            gs = [g for g in prims.guard_strs_plain(view, b) if not re.search(r'STATIC_MAX_LEVEL|log::max_level', g)]
+            out.add(' && '.join(gs[-2:]))
+    return sorted(out)
+
+
+def validator_table(ctx, select, rule, why):
+    import json, os, re
+    from ..mir import norm
+    path = os.path.join(os.path.dirname(os.path.dirname(os.path.abspath(__file__))), 'tables', 'validator_rejections.json')
+    want = json.load(open(path))
+    n = 0
+    seen = set()
+    for v in ctx.F.all_fns():
+        p = norm(v.path)
+        if v.f.get('parent') or not re.search(r'::validate_\w+$', p) or not ('/mqtt/' in v.file or v.file.endswith('validate.rs')) or not select(p):
+            continue
+        got = validator_rows(v)
+        if not got and p not in want:
+            continue
+        n += 1
+        seen.add(p)
+        w = want.get(p)
+        missing = sorted(set(w or []) - set(got))
+        extra = sorted(set(got) - set(w or []))
+        ctx.ob(w is not None and not missing and not extra,
+               '%s rejects under exactly the reviewed conditions (%d)%s [%s]' % (p.split('::')[-1], len(got), '' if not (missing or extra) else ' — no longer rejects: %s; newly rejects: %s' % ([m[-120:] for m in missing], [x[-120:] for x in extra]), why),
+               'validator|' + p.split('::')[-1], loc=v.loc(), rule=rule)
+    for p in sorted(want):
+        if select(p) and p not in seen and ctx.config == 'all':
+            ctx.ob(False, 'validator %s of the reviewed table no longer exists or no longer rejects anything' % p, 'validator|' + p.split('::')[-1], rule=rule)
+    return n
+
